@@ -21,6 +21,7 @@ the world the call left behind — exactly how the harness drives the real conta
 import SvModel.Properties.Core
 import SvModel.Properties.InsertProps
 import SvModel.Properties.AssignProps
+import SvModel.Proofs.InputAssign
 
 namespace SvModel.History
 open SvModel Gen
@@ -33,6 +34,10 @@ inductive SOp (α : Type) where
   | insert (p : Nat) (v : α) | insertMove (p : Nat) (v : α) | insertSelf (p i : Nat)
   | assign (n : Nat) (v : α) | assignRange (vs : List α)
   | insertN (p n : Nat) (v : α) | insertNSelf (p n i : Nat) | insertRange (p : Nat) (vs : List α)
+  /- single-pass (input iterator) ranges; `sid` names the stream in the trace.  `appendInput true`: the public append ();
+     `appendInput false`: insert (end (), first, last) and the range constructor's loop -/
+  | appendInput (strong : Bool) (sid : Nat) (vs : List α) | assignInput (sid : Nat) (vs : List α)
+  deriving DecidableEq
 
 /-- API preconditions, in terms of the current size -/
 def SOp.valid (size : Nat) : SOp α → Prop
@@ -70,6 +75,8 @@ def SOp.run (cfg : Cfg) (c : Nat) (w : World α) : SOp α → M α Unit
   | .insertN p n v => insertCopies cfg c p n (.ext v) >>= fun _ => pure ()
   | .insertNSelf p n i => insertCopies cfg c p n (.copyOf (w.hdr c).data i) >>= fun _ => pure ()
   | .insertRange p vs => insertRangeFwd cfg c p (vs.map Src.ext) >>= fun _ => pure ()
+  | .appendInput st sid vs => appendRangeInput cfg c st sid 0 vs >>= fun _ => pure ()
+  | .assignInput sid vs => assignWithRangeInput cfg c sid vs
 
 /-- what std::vector does (Spec/L0.lean) -/
 def SOp.spec : SOp α → List (Val α) → List (Val α)
@@ -94,6 +101,8 @@ def SOp.spec : SOp α → List (Val α) → List (Val α)
   | .insertN p n v, xs => (L0.insertN xs p n (.val v)).1
   | .insertNSelf p n i, xs => (L0.insertN xs p n (xs.getD i .husk)).1
   | .insertRange p vs, xs => (L0.insertRange xs p (vs.map Val.val)).1
+  | .appendInput _ _ vs, xs => L0.append xs (vs.map Val.val)
+  | .assignInput _ vs, _ => L0.assignRange (vs.map Val.val)
 
 /-- operations with the strong exception guarantee (erase and erase(range) only have the basic one) -/
 def SOp.strong : SOp α → Bool
@@ -102,6 +111,8 @@ def SOp.strong : SOp α → Bool
   | .insert _ _ | .insertMove _ _ | .insertSelf _ _ => false   -- strong only at the end position (C05.insert_at_end_strong)
   | .assign _ _ | .assignRange _ => false                      -- basic guarantee (strong only when it reallocates)
   | .insertN _ _ _ | .insertNSelf _ _ _ | .insertRange _ _ => false
+  | .appendInput st _ _ => st     -- the public append () erases what it added; insert (end (), …) keeps the prefix
+  | .assignInput _ _ => false
   | _ => true
 
 theorem pre_faults {cfg : Cfg} {w : World α} {c : Nat} (hp : Pre cfg w c) (f : List Nat) : Pre cfg { w with faults := f } c :=
@@ -395,6 +406,34 @@ theorem step_basic (cfg : Cfg) (c : Nat) (op : SOp α) (w : World α) (xs : List
     | thrown e w' =>
       rw [hr] at hs
       exact ⟨hs.1, fun h => by simp [SOp.strong] at h⟩
+
+  | appendInput st sid vs =>
+    show match (appendRangeInput cfg c st sid 0 vs >>= fun _ => pure ()) w with | .ok _ w' => _ | .thrown _ w' => _
+    rw [run_discard]
+    have h := appendRangeInputLoop_sat cfg c st (w.hdr c).size sid hpol vs 0 w hp.vec hp.led hp.nmax (Nat.le_refl _)
+    have e : appendRangeInput cfg c st sid 0 vs w =
+        match appendRangeInputLoop cfg c st (w.hdr c).size sid 0 vs w with
+        | .ok _ w' => .ok (w.hdr c).size w' | .thrown e w' => .thrown e w' := by
+      unfold appendRangeInput
+      rw [bind_run, getV_run]; simp only []; rw [bind_run]
+      cases appendRangeInputLoop cfg c st (w.hdr c).size sid 0 vs w <;> rfl
+    rw [e]
+    cases hl : appendRangeInputLoop cfg c st (w.hdr c).size sid 0 vs w with
+    | ok u w1 => rw [hl] at h; exact ⟨h.1, h.2.1 xs hx⟩
+    | thrown e1 w1 =>
+      rw [hl] at h
+      refine ⟨h.1, fun hs => ?_⟩
+      obtain ⟨k, _, hh, _⟩ := h.2 xs hx
+      have hs' : st = true := hs
+      subst hs'
+      simp only [if_true] at hh
+      rw [List.take_of_length_le (by rw [hx.1]; exact Nat.le_refl _)] at hh; exact hh
+  | assignInput sid vs =>
+    show match assignWithRangeInput cfg c sid vs w with | .ok _ w' => _ | .thrown _ w' => _
+    have h := assignWithRangeInput_sat cfg c sid vs w hp.vec hp.led hp.nmax hpol
+    cases hr : assignWithRangeInput cfg c sid vs w with
+    | ok u w1 => rw [hr] at h; exact ⟨h.1, h.2.1 xs hx⟩
+    | thrown e1 w1 => rw [hr] at h; exact ⟨h.1, fun hs => by simp [SOp.strong] at hs⟩
 
 /-! ### histories -/
 
